@@ -2,5 +2,6 @@ package main
 
 // The checks register themselves in init functions of their packages.
 import (
+	_ "verif/h/c01"
 	_ "verif/h/c14"
 )
